@@ -99,7 +99,25 @@ def install_proxy(rec, contend=None):
                 contend["left"] -= 1
 
     def logged_execute(no, fn, sql, a, many=False, db_path=None):
+        head = sql.lstrip().upper()
+        real = getattr(getattr(fn, "__self__", None), "connection", None)      # the real sqlite3 connection
+        in_txn = bool(getattr(real, "in_transaction", True))
         write = WRITE_RE.match(sql) is not None
+        # transaction control spelled as SQL (a connection in autocommit mode with explicit BEGIN ... COMMIT)
+        if head.startswith("COMMIT") or head.startswith("END"):
+            rec.tick("pre-commit %d" % no)
+            try:
+                r = fn(sql, *a)
+            except sqlite3.Error as e:
+                rec.tick("fail-commit %d %s" % (no, type(e).__name__))
+                raise
+            rec.tick("post-commit %d" % no)
+            return r
+        if head.startswith("ROLLBACK"):
+            rec.tick("rollback %d" % no)
+            return fn(sql, *a)
+        # a write outside any transaction on an autocommit connection is its own transaction: durable once it returns
+        auto = write and not in_txn and (getattr(real, "isolation_level", "") is None or getattr(real, "autocommit", None) is True)
         if write:
             if not many and db_path:
                 maybe_contend(db_path)
@@ -110,19 +128,23 @@ def install_proxy(rec, contend=None):
             else:
                 tags = ["unmodelled %d %s" % (no, sql.split()[0])]
             a = (rows,) + tuple(a[1:]) if many else a
-        elif sql.lstrip().upper().startswith("PRAGMA"):
+        elif head.startswith("PRAGMA"):
             tags = ["pragma %d" % no]
         else:
             tags = ["sql %d %s" % (no, sql.split()[0])]
         for t in tags:
             rec.tick("pre-" + t)
+        if auto:
+            for t in tags:
+                if t.startswith("upsert"):
+                    rec.tick("pre-auto" + t)
         try:
             r = fn(sql, *a)
         except sqlite3.Error as e:
             for t in tags:
                 rec.tick("fail-" + t + " " + type(e).__name__)
             raise
-        if sql.lstrip().upper().startswith("PRAGMA JOURNAL_MODE"):
+        if head.startswith("PRAGMA JOURNAL_MODE"):
             try:
                 mode = r.fetchall()
                 rec.tick("journal-mode %d %s" % (no, mode[0][0] if mode else "?"))
@@ -138,6 +160,8 @@ def install_proxy(rec, contend=None):
                 tags = ["unmodelled %d %s" % (no, sql.split()[0])]
         for t in tags:
             rec.tick("post-" + t)
+        if write and not in_txn and not bool(getattr(real, "in_transaction", True)):
+            rec.tick("post-commit %d" % no)            # committed with the statement itself (autocommit)
         return r
 
     class Cur:
@@ -361,6 +385,7 @@ def model_events(evs):
     inflight = []
     rolled = set()
     pend = {}
+    auto = []          # single-statement transactions in flight: (connection, id, blob hash)
     for e in evs:
         if e[0] == "post-unmodelled":
             raise RuntimeError("the writer changed table `individuals` with a statement the crash model has no event for "
@@ -373,7 +398,19 @@ def model_events(evs):
         elif e[0] == "rollback":
             rolled.update(pend.pop(e[1], []))
     for i, e in enumerate(evs):
-        if e[0] == "post-upsert" and i in rolled:
+        if e[0] == "pre-autoupsert":
+            auto.append((e[1], e[2], e[3]))
+            out.append("o")
+        elif e[0] == "post-upsert" and (e[1], e[2], e[3]) in auto:
+            auto.remove((e[1], e[2], e[3]))
+            out.append("u:%s:%s:%s" % (e[1], e[2], e[3]))
+        elif e[0] == "fail-upsert" and len(e) > 3 and (e[1], e[2], e[3]) in auto:
+            auto.remove((e[1], e[2], e[3]))
+            out.append("o")
+        elif e[0] == "post-noeffect":
+            auto[:] = [t for t in auto if t[0] != e[1]]
+            out.append("o")
+        elif e[0] == "post-upsert" and i in rolled:
             out.append("o")
         elif e[0] == "post-upsert":
             out.append("u:%s:%s:%s" % (e[1], e[2], e[3]))
@@ -390,6 +427,7 @@ def model_events(evs):
             out.append("o")
         else:
             out.append("o")
+    model_events.auto = auto
     return out, inflight
 
 
@@ -462,6 +500,9 @@ def check_point(ctx, evs, rb, lines, pending, scenario=()):
     if len(inflight) > 1:
         variants.append(mev + ["c:%s" % c for c in inflight])
         variants.append(mev + ["c:%s" % c for c in reversed(inflight)])
+    for c, i, h in getattr(model_events, "auto", []):       # a single-statement transaction in flight: row old or new
+        for v in list(variants):
+            variants.append(v + ["u:%s:%s:%s" % (c, i, h), "c:%s" % c])
     for v in variants:
         lines.append("c11.crash %d|%s" % (len(v), ",".join(v)))
     pending.append((len(variants), rb["rows"], evs))
